@@ -76,10 +76,12 @@ Fixpoint run06_steps (s : cstate) (told : list N) (steps : list (list cev * (cev
       let '(s', out) := cstep s e in
       let corr := ev_inputs_ok s e && state_eqb s' o && listN_eqb (sortN (map oc_code out)) (sortN (map oc_code (ob_out o))) in
       let callers := map oc_caller (ob_out o) in
-      (* nobody is told twice; the node's own state satisfies the invariant *)
-      let pb := forallb (fun c => negb (memN c told)) callers && nodupN callers && inv_b (obs_state o) in
+      (* the property on the node's own observations: nobody is told twice (that everybody is told, and nothing is left,
+         is judged at the end). The bookkeeping invariant of Calls.v evaluated on the node's own state is part of the
+         correspondence: a node that keeps its books differently is a different design, not by itself a violation *)
+      let pb := forallb (fun c => negb (memN c told)) callers && nodupN callers in
       let '(rest, told') := run06_steps s' (callers ++ told) r in
-      ((if corr then [] else [1]) ++ (if pb then [] else [2]) ++ rest, told')
+      ((if corr && inv_b (obs_state o) then [] else [1]) ++ (if pb then [] else [2]) ++ rest, told')
   end.
 
 Definition all_callers (steps : list (list cev * (cev * cobs))) : list N := flat_map (fun x => ev_callers (fst (snd x))) steps.
